@@ -603,6 +603,23 @@ def _build_end_to_end(ctx, rid, reg):
         mset[key] = (PyFunc(lambda a, k, b=b: w.new(b, a, k), b.name), PyFunc(lambda a, k, key=key: (rec["appliers"].__setitem__(key, (a, k)) or Obj(f"applier_{key}")), cl.name))
     cfg = Obj("config", {"channels": list(order_c), "samples": list(order_s), "channel_nbins": {k_: c(v_) for k_, v_ in nbins.items()}, "modifiers": list(mods), "modifier_settings": {}})
     site = f"{PDF}::_nominal_and_modifiers_from_spec [interpreted]"
+    # HISTORY: another model is built first in the same process -- same channel, sample and modifier NAMES, other bin counts,
+    # other data, other placement of the modifiers; nothing of it may show in the model under test
+    warm = {"channels": [
+        {"name": "cm", "samples": [{"name": "s1", "data": [at("w_m_s1_0")], "modifiers": [mod("hs", "histosys", {"hi_data": [at("wh0")], "lo_data": [at("wl0")]}), mod("st", "staterror", [at("w_ust_m0")])]}]},
+        {"name": "ca", "samples": [
+            {"name": "s2", "data": [at("w_a_s2_0"), at("w_a_s2_1"), at("w_a_s2_2")], "modifiers": [mod("ns", "normsys", {"hi": at("WHI"), "lo": at("WLO")}), mod("ss", "shapesys", [at("wu0"), at("wu1"), at("wu2")]), mod("sf", "shapefactor"), mod("mu", "normfactor"), mod("lumi", "lumi")]},
+            {"name": "s1", "data": [at("w_a_s1_0"), at("w_a_s1_1"), at("w_a_s1_2")], "modifiers": [mod("mu", "normfactor")]}]},
+    ]}
+    warm_mods = sorted({(m["name"], m["type"]) for ch in warm["channels"] for sm in ch["samples"] for m in sm["modifiers"]})
+    warm_cfg = Obj("config", {"channels": ["ca", "cm"], "samples": ["s1", "s2"], "channel_nbins": {"ca": c(3), "cm": c(1)}, "modifiers": list(warm_mods), "modifier_settings": {}})
+    try:
+        w.call_func(f, [mset, warm_cfg, warm, Obj("WARM_BATCH")])
+    except (FragmentFault, Undecided, KeyError, TypeError, ValueError, IndexError, AttributeError) as e:
+        ctx.unrecognised(rid, f, "_nominal_and_modifiers_from_spec (first model of the process)", f"not interpretable: {type(e).__name__}: {e}")
+        return
+    rec["appliers"].clear()
+    rec.pop("finalize_args", None)
     try:
         out = w.call_func(f, [mset, cfg, spec, Obj("BATCH")])
     except FragmentFault as e:
